@@ -29,6 +29,26 @@ PLANS = {
         thorough=dict(mc=["core", "core2"], gens=[dict(maxlog=2, num=600, depth=30, lean=True, focus="commit"),
                                                   dict(maxlog=2, num=300, depth=30, lean=False, focus="overlay")],
                       per_beh=5, fs=[1, 3, 25, 400], vts=["tiny", "edge", "ovf"], embs=api.EMBEDDINGS_ALL)),
+    "C13": dict(
+        quick=dict(mc=["core2"], gens=[dict(maxlog=2, num=24, depth=22, lean=True, focus="commit")],
+                   per_beh=1, fs=[25, 60], vts=["tiny", "mixed"], embs=["top", "scatter", "deep(6):z", "spread(6)"], matrix=True),
+        thorough=dict(mc=["core", "core2"], gens=[dict(maxlog=2, num=200, depth=28, lean=True, focus="commit")],
+                      per_beh=2, fs=[3, 25, 60, 400], vts=["tiny", "mixed", "edge"], embs=api.EMBEDDINGS_ALL, matrix=True)),
+    "C16": dict(
+        quick=dict(mc=["core2"], gens=[dict(maxlog=2, num=60, depth=24, lean=True, focus="commit")],
+                   per_beh=2, fs=[1, 3, 25, 60], vts=["tiny", "edge", "ovf", "mixed", "mixed2", "big"], embs=api.EMBEDDINGS_QUICK,
+                   decode=True, tiny_ht=True),
+        thorough=dict(mc=["core", "core2"], gens=[dict(maxlog=2, num=500, depth=30, lean=True, focus="commit"),
+                                                  dict(maxlog=1, num=200, depth=30, lean=False, focus="commit")],
+                      per_beh=4, fs=[1, 3, 25, 60, 400], vts=["tiny", "edge", "ovf", "mixed", "mixed2", "big", "huge"],
+                      embs=api.EMBEDDINGS_ALL, decode=True, tiny_ht=True)),
+    "C19": dict(
+        quick=dict(mc=["core2"], gens=[dict(maxlog=2, num=60, depth=24, lean=True, focus="commit")],
+                   per_beh=2, fs=[1, 3, 25, 60], vts=["ovf", "mixed", "mixed2", "big", "edge"], embs=api.EMBEDDINGS_QUICK,
+                   decode=True, tiny_ht=True, alloc=True),
+        thorough=dict(mc=["core", "core2"], gens=[dict(maxlog=2, num=500, depth=32, lean=True, focus="commit")],
+                      per_beh=4, fs=[1, 3, 25, 60, 400], vts=["ovf", "mixed", "mixed2", "big", "edge", "huge"],
+                      embs=api.EMBEDDINGS_ALL, decode=True, tiny_ht=True, alloc=True)),
     "C09": dict(
         quick=dict(mc=["core2"], gens=[dict(maxlog=1, num=40, depth=24, lean=True, focus="rollback"),
                                        dict(maxlog=2, num=40, depth=24, lean=True, focus="rollback"),
@@ -103,10 +123,25 @@ def run_plan(pid, tier, seed):
               (pid, len(behs), g["maxlog"], len(kept), g["focus"]))
         for b in kept:
             nbeh += 1
+            reps = []
             for rep in range(plan["per_beh"]):
                 store, conc = api.concretise(b, consts, rng, f=rng.choice(plan["fs"]), emb=rng.choice(plan["embs"]),
                                              vt=rng.choice(plan["vts"]),
                                              segment_size=rng.choice(plan["segs"]) if plan.get("segs") else None)
+                if plan.get("tiny_ht"):
+                    # tiny hash tables (heavy tombstoning) as well as roomy ones
+                    pages_needed = 8 + conc["f"] * 3
+                    store["hashtable_buckets"] = rng.choice([max(64, 4 * pages_needed), 4096, 64000])
+                if plan.get("matrix"):
+                    # C13: the same behaviour and concretisation under every point of the configuration matrix
+                    for mc in api.CONFIG_MATRIX:
+                        st2 = dict(mc)
+                        st2.update(rollback=store["rollback"], max_rollback_log_len=store["max_rollback_log_len"],
+                                   seed=rng.randrange(1 << 30))
+                        reps.append((st2, conc))
+                else:
+                    reps.append((store, conc))
+            for store, conc in reps:
                 bb = [dict(s) for s in b]
                 if plan.get("reopen_cfgs"):
                     for s in bb:
@@ -118,6 +153,8 @@ def run_plan(pid, tier, seed):
                             s["cfg"] = nc
                 run += 1
                 sc = api.make_script(run, bb, store, conc)
+                if plan.get("decode"):
+                    sc["decode"] = True
                 scripts[run] = sc
                 classes[run] = ckey
                 script_by_run[run] = sc
@@ -176,6 +213,34 @@ def run_plan(pid, tier, seed):
         violations.append(dict(prop=prop, replay=p,
                                what="store behaviour is not a behaviour of NomtApi: %s res=%s class=%s" %
                                     (rej["record"].get("ev"), rej["record"].get("res"), rej["cls"])))
+    # 6b. C19/C16: consecutive decoder snapshots must be related by Alloc!Step
+    alloc_pairs = 0
+    if plan.get("alloc"):
+        pairs = []
+        for r in sorted(runs):
+            prev = {}
+            for rec in runs[r]:
+                dec = rec.get("st", {}).get("dec") if isinstance(rec.get("st"), dict) else None
+                if rec.get("ev") == "reset":
+                    prev = {}
+                if not dec:
+                    continue
+                for fname in ("ln", "bbn"):
+                    cur = dec.get(fname)
+                    if cur and "live" in cur:
+                        if fname in prev and "live" in prev[fname]:
+                            pairs.append(dict(run=r, i=rec.get("i"), file=fname, a=prev[fname], b=cur))
+                        prev[fname] = cur
+                    else:
+                        prev.pop(fname, None)
+        alloc_pairs = len(pairs)
+        bad_pairs = validate_alloc(pairs, pid) if pairs else []
+        for i in bad_pairs[:5]:
+            pr = pairs[i]
+            p = C.write_replay(pid, "alloc-run%d-%s" % (pr["run"], pr["file"]), dict(kind="alloc-pair", property=pid, pair=pr,
+                                                                                     script=script_by_run[pr["run"]]))
+            violations.append(dict(prop=pid, replay=p, what="page accounting of %s between two commits is not an Alloc!Step "
+                                                            "(leak, reuse of a live page, or incomplete partition)" % pr["file"]))
     # 7. report
     for k in sorted(set(json.dumps(x, sort_keys=True) for x in known)):
         k = json.loads(k)
@@ -198,6 +263,24 @@ def run_plan(pid, tier, seed):
                     "least one successful commit (all kept behaviours do); evaluations = observation records validated",
                exhaustive=False, model_checking=mc_summ, behaviours=nbeh, scripts=len(scripts),
                traces_rejected=len(rejections), known_findings=sorted({k["id"] for k in known}),
-               notes=notes[:20])
+               notes=notes[:20], alloc_transitions_checked=alloc_pairs)
     C.write_evidence(pid, tier, seed, "model_checking", cov, time.time() - t0, ASSUME, violations=len(violations))
     return 1 if violations else 0
+
+
+def validate_alloc(pairs, tag):
+    import re
+    tdir = os.path.join(C.OUT, "traces")
+    os.makedirs(tdir, exist_ok=True)
+    tp = os.path.join(tdir, "alloc_%s.ndjson" % tag)
+    with open(tp, "w") as f:
+        for p in pairs:
+            f.write(json.dumps(p) + "\n")
+    cfg = os.path.join(C.OUT, "AllocTrace_%s.cfg" % tag)
+    with open(cfg, "w") as f:
+        f.write("SPECIFICATION TSpec\nCONSTANTS\n  MaxPage = 1\n  PerFlPage = 1\nPOSTCONDITION Finished\nCHECK_DEADLOCK FALSE\n")
+    rc, out = C.run_tlc("AllocTrace.tla", cfg, tag="alloctrace" + tag, nworkers=1, timeout=1200, heap="4g", env_extra={"TRACE": tp},
+                        java_opts="-Xss1g -Dtlc2.tool.queue.IStateQueue=StateDeque")
+    if '"TRACE-COMPLETE"' not in out:
+        raise C.ToolError("AllocTrace did not complete:\n" + out[-2000:])
+    return [int(m.group(1)) - 1 for m in re.finditer(r'<<"BAD-RECORD", (\d+)>>', out)]
